@@ -181,6 +181,23 @@ pub fn main(args: &[String]) {
                     names.sort();
                     format!("[{}]", names.iter().map(|n| n.to_string()).collect::<Vec<_>>().join(","))
                 }
+                "trks" => {
+                    let mut names: Vec<u64> = std::fs::read_dir(&datadir)
+                        .map(|rd| rd.flatten().filter_map(|e| e.file_name().to_str().and_then(|n| n.parse().ok())).collect())
+                        .unwrap_or_default();
+                    names.sort();
+                    names
+                        .iter()
+                        .map(|n| {
+                            let p = datadir.join(n.to_string());
+                            match walrus_rust::wal::verif_hooks::file_state(&p.to_string_lossy()) {
+                                Some((l, c, tot, f)) => format!("{}={},{},{},{}", n, l, c, tot, f as u8),
+                                None => format!("{}=none", n),
+                            }
+                        })
+                        .collect::<Vec<_>>()
+                        .join(";")
+                }
                 "trk" => {
                     let p = datadir.join(t[1]);
                     match walrus_rust::wal::verif_hooks::file_state(&p.to_string_lossy()) {
